@@ -32,3 +32,19 @@ Definition normalize_power (a : arr S) (p : S) : arr S :=
 End Power.
 Arguments power {S}. Arguments pupil_field {S}. Arguments propagate_period {S}.
 Arguments window_energy {S}. Arguments normalize_power {S}.
+
+(* normalize_power as a caller sees it, including the calls whose result is not finite:
+     power/sum|a|^2 with sum|a|^2 = 0 is inf or nan (0/0), and the square root of a negative target is nan -
+   every sample of the result is then inf or nan (with a RuntimeWarning, no exception).  [None] = "not finite".
+   [is0] decides whether a scalar is zero; the target is a rational (every float is one). *)
+Section PowerChecked.
+Variable S : Scalar.
+Variable sqs : S -> S.
+Variable inv : S -> S.
+Variable is0 : S -> bool.
+
+Definition normalize_power_checked (a : arr S) (p : Qc) : option (arr S) :=
+  if is0 (power a) || negb (Qle_bool 0 (this p)) then None
+  else Some (normalize_power sqs inv a (kofq p)).
+End PowerChecked.
+Arguments normalize_power_checked {S}.
